@@ -8,6 +8,10 @@ import sys
 
 ROOT = os.path.abspath(os.path.join(os.path.dirname(__file__), '..'))
 PY = '/venv/bin/python'
+KF_COMMENT = ('Genuine defects of formlio/forml recorded rather than repaired (status=finding) or repaired by a fix: commit '
+              '(status=fixed; a fixed entry suppresses nothing). Assembled from findings.d/*.json by tools/mkmanifest.py; never '
+              'written at run time. A violation is suppressed only when its signature (root-cause class decided by the '
+              "check's oracle on the minimised witness) equals a listed finding's; see DESIGN.md 2.4.")
 
 
 def main() -> int:
@@ -53,6 +57,12 @@ def main() -> int:
         'not_applicable': not_applicable,
         'notes': 'See DESIGN.md. KNOWN_FINDINGS.json lists genuine defects (finding / fixed). Exit 2 = machinery error.',
     }
+    findings = []
+    for path in sorted(glob.glob(os.path.join(ROOT, 'findings.d', 'C*.json'))):
+        findings.extend(json.load(open(path)))
+    with open(os.path.join(ROOT, 'KNOWN_FINDINGS.json'), 'w') as f:
+        json.dump({'comment': KF_COMMENT, 'findings': findings}, f, indent=1)
+        f.write('\n')
     with open(os.path.join(ROOT, 'MANIFEST.json'), 'w') as f:
         json.dump(manifest, f, indent=1)
         f.write('\n')
